@@ -4,7 +4,7 @@ import vlib, gen_facts
 from props import codec_common as cc
 
 THEOREMS = ['C11_clone_same_bytes', 'C11_copy_legal_all', 'C11_move_legal_same', 'C11_placeAll_canonical', 'C11_placeAll_canonical_deep', 'C11_copy_step_is_add_field', 'C11_clone_unknown_empty', 'C11_clone_visible_same', 'C11_presetOk_header', 'C11_presetOk_trailer', 'C11_clone_drops_unknown', 'C11_finding_clone_reorders_decoded', 'C11_finding_decoded_is_arrival_order', 'C11_finding_clone_reorders_equal_pos']
-RES = re.compile(r'^clone=(\S+) copy=(\S+) orig=(\S+) moved=(\S+)$')
+RES = re.compile(r'^clone=(\S+) copy=(\S+) orig=(\S+) moved=(\S+) smoved=(\S+)$')
 DRES = re.compile(r'^dec=(H\[.*\] B\[.*\] T\[.*\]) re=(\S+) clone=(\S+)$')
 
 
@@ -75,9 +75,9 @@ def make_oracle(sc, meta):
         m = RES.match(out)
         if not m:
             return (False, None)
-        cl, cp, orig, mv = m.groups()
+        cl, cp, orig, mv, smv = m.groups()
         ref, _ = cc.ref_encode(sc, *meta[line])
-        ok = cl == orig and cp == orig and mv == orig
+        ok = cl == orig and cp == orig and mv == orig and smv == orig
         if not ok:
             # two or more fields without a schema position (f8c -F user fields): their relative order is the insertion order,
             # which clone/copy_legal (tag order) do not reproduce
@@ -101,7 +101,7 @@ def run(res, replay=None):
         lines = vlib.corpus_lines('C11') + lines
     res.assumptions += ['messages carry no permissive pass-through bytes (clone does not copy _unknown)', 'each object is encoded once', 'only FIX42UTEST']
     res.cov['rule'] = ('schema-driven messages (all message types, optional subsets, nested groups, data pairs): clone(), copy_legal into a fresh deep-constructed message of the same type (body, header, trailer), '
-                       'move_legal likewise from a second identical source; the four encodings must be byte-identical to each other and to the position-ordered reference rendering; decoded messages (with nested groups) cloned; '
+                       'move_legal likewise from a second identical source, and into a shallow target (created like the message Message::factory decodes into); the four encodings must be byte-identical to each other and to the position-ordered reference rendering; decoded messages (with nested groups) cloned; '
                        'copy_legal of the body into a fresh message of ANOTHER type (fields legal there, in the target position order); distinct by line')
     vlib.decide_stream(res, module='Fix8Model.Props.C11', theorems=THEOREMS, stream='codec', harness_name='codec', lines=lines,
                        oracle=make_oracle(sc, meta), nontrivial=lambda l: l if '[' in l or l.count('=') > 8 else None,
